@@ -614,6 +614,27 @@ func (a *A) ruleWholeCallSlice(pkgs ...string) int {
 			a.Ok(construct, last.Pos(), "the closing parenthesis found by LastIndex is required to match the first opening one")
 			continue
 		}
+		// (1b) the text that is cut is itself one whole call by construction, wherever the cutting code lives: every
+		// value it can be is read from a field that the analytic-call extractor fills with expr[nameStart:matchingParen+1]
+		wholeByField := map[string]string{
+			"BareCall":   "AnalyticCall.BareCall is expr[nameStart : matchingParen+1] (rsql.extractAnalyticCalls)",
+			"Expression": "AnalyticField.Expression is Calls[0].BareCall for a field that is exactly one analytic call",
+		}
+		allWhole, some := true, false
+		for _, l := range valueSources(idx.Call.Args[0]) {
+			t := TermOf(l, nil)
+			if t.Kind == "field" && t.Field != nil {
+				if t.Field == a.FieldOf(a.Named("types", "AnalyticCall"), "BareCall") || t.Field == a.FieldOf(a.Named("types", "AnalyticField"), "Expression") {
+					some = true
+					continue
+				}
+			}
+			allWhole = false
+		}
+		if allWhole && some {
+			a.Ok(construct, last.Pos(), "the text that is cut is read from a field that holds exactly one call (%s)", wholeByField["BareCall"])
+			continue
+		}
 		// (2) callers
 		node := a.CG().Nodes[fn]
 		var bad []string
